@@ -255,7 +255,15 @@ def run(ctx):
             continue
         hg = CFG(fn)
         hrd = ReachingDefs(hg)
-        reads_ph = [n for n in walk_local(fn) if is_self_attr(n, '_id_placeholder') and isinstance(n.ctx, ast.Load)]
+        def in_log_call(n):
+            # a read that only feeds a log record (self._logger.debug("... {0}".format(self._id_placeholder))) selects nothing
+            x = getattr(n, '_parent', None)
+            while x is not None and not isinstance(x, ast.stmt):
+                if isinstance(x, ast.Call) and isinstance(x.func, ast.Attribute) and is_self_attr(x.func.value, '_logger'):
+                    return True
+                x = getattr(x, '_parent', None)
+            return False
+        reads_ph = [n for n in walk_local(fn) if is_self_attr(n, '_id_placeholder') and isinstance(n.ctx, ast.Load) and not in_log_call(n)]
         if not reads_ph:
             continue
         n_fb += 1
